@@ -6,11 +6,12 @@ use std::{
 
 pub fn file_char_stream(path: &Path) -> Result<impl Iterator<Item = char>, std::io::Error> {
     let f = BufReader::new(File::open(path)?);
-    Ok(f.lines().flat_map(|line| {
-        line.unwrap()
-            .chars()
-            .chain(std::iter::once('\n'))
-            .collect::<Vec<_>>()
-            .into_iter()
-    }))
+    // read eagerly so that a read error (not UTF-8, a directory, ...) is reported instead of
+    // panicking in the middle of the lazily consumed stream
+    let mut text = Vec::new();
+    for line in f.lines() {
+        text.extend(line?.chars());
+        text.push('\n');
+    }
+    Ok(text.into_iter())
 }
